@@ -1,6 +1,7 @@
 //! Stand-in for the parts of `crossbeam` a (changed) rs-store tree may use, on top of the simulator.
 pub mod channel {
     pub use simrt::channel::*;
+    pub use crate::select;
 }
 
 /// Non-blocking queues: a simulated mutex around a VecDeque (every operation is a scheduling point).
@@ -180,4 +181,97 @@ pub mod sync {
             }
         }
     }
+}
+
+/// A subset of crossbeam's `select!`: any number of `recv(r) -> pat => body` and
+/// `send(s, msg) -> pat => body` arms, optionally followed by `default => body` or
+/// `default(timeout) => body`. Bodies are expressions followed by a comma, or blocks.
+#[macro_export]
+macro_rules! select {
+    ($($tokens:tt)*) => {
+        $crate::__sim_select!(@parse [] $($tokens)*)
+    };
+}
+
+#[doc(hidden)]
+#[macro_export]
+macro_rules! __sim_select {
+    // stray commas between arms
+    (@parse [$($arms:tt)*] , $($rest:tt)*) => { $crate::__sim_select!(@parse [$($arms)*] $($rest)*) };
+    // recv arms
+    (@parse [$($arms:tt)*] recv($r:expr) -> $p:pat => $body:block $($rest:tt)*) => {
+        $crate::__sim_select!(@parse [$($arms)* {recv ($r) ($p) ($body)}] $($rest)*)
+    };
+    (@parse [$($arms:tt)*] recv($r:expr) -> $p:pat => $body:expr, $($rest:tt)*) => {
+        $crate::__sim_select!(@parse [$($arms)* {recv ($r) ($p) ($body)}] $($rest)*)
+    };
+    (@parse [$($arms:tt)*] recv($r:expr) -> $p:pat => $body:expr) => {
+        $crate::__sim_select!(@parse [$($arms)* {recv ($r) ($p) ($body)}])
+    };
+    // send arms
+    (@parse [$($arms:tt)*] send($s:expr, $m:expr) -> $p:pat => $body:block $($rest:tt)*) => {
+        $crate::__sim_select!(@parse [$($arms)* {send ($s) ($m) ($p) ($body)}] $($rest)*)
+    };
+    (@parse [$($arms:tt)*] send($s:expr, $m:expr) -> $p:pat => $body:expr, $($rest:tt)*) => {
+        $crate::__sim_select!(@parse [$($arms)* {send ($s) ($m) ($p) ($body)}] $($rest)*)
+    };
+    (@parse [$($arms:tt)*] send($s:expr, $m:expr) -> $p:pat => $body:expr) => {
+        $crate::__sim_select!(@parse [$($arms)* {send ($s) ($m) ($p) ($body)}])
+    };
+    // default arms (last)
+    (@parse [$($arms:tt)*] default => $body:expr $(,)?) => {
+        { let mut __sel = $crate::channel::Select::new(); $crate::__sim_select!(@reg __sel [$($arms)*] [] [try ($body)]) }
+    };
+    (@parse [$($arms:tt)*] default($t:expr) => $body:expr $(,)?) => {
+        { let mut __sel = $crate::channel::Select::new(); $crate::__sim_select!(@reg __sel [$($arms)*] [] [timeout ($t) ($body)]) }
+    };
+    (@parse [$($arms:tt)*]) => {
+        { let mut __sel = $crate::channel::Select::new(); $crate::__sim_select!(@reg __sel [$($arms)*] [] [block]) }
+    };
+    // register the operations one by one; each level keeps its handle alive for the levels inside
+    (@reg $sel:ident [{recv ($r:expr) ($p:pat) ($body:expr)} $($arms:tt)*] [$($acc:tt)*] $def:tt) => {{
+        let __h = &$r;
+        let __i = $sel.recv(__h);
+        $crate::__sim_select!(@reg $sel [$($arms)*] [$($acc)* {recv __i __h ($p) ($body)}] $def)
+    }};
+    (@reg $sel:ident [{send ($s:expr) ($m:expr) ($p:pat) ($body:expr)} $($arms:tt)*] [$($acc:tt)*] $def:tt) => {{
+        let __h = &$s;
+        let __i = $sel.send(__h);
+        $crate::__sim_select!(@reg $sel [$($arms)*] [$($acc)* {send __i __h ($m) ($p) ($body)}] $def)
+    }};
+    (@reg $sel:ident [] [$($acc:tt)*] [block]) => {{
+        let __op = $sel.select();
+        $crate::__sim_select!(@run __op [$($acc)*])
+    }};
+    (@reg $sel:ident [] [$($acc:tt)*] [try ($dbody:expr)]) => {{
+        match $sel.try_select() {
+            Ok(__op) => $crate::__sim_select!(@run __op [$($acc)*]),
+            Err(_) => $dbody,
+        }
+    }};
+    (@reg $sel:ident [] [$($acc:tt)*] [timeout ($t:expr) ($dbody:expr)]) => {{
+        match $sel.select_timeout($t) {
+            Ok(__op) => $crate::__sim_select!(@run __op [$($acc)*]),
+            Err(_) => $dbody,
+        }
+    }};
+    (@run $op:ident [{recv $i:ident $h:ident ($p:pat) ($body:expr)} $($acc:tt)*]) => {
+        if $op.index() == $i {
+            let $p = $op.recv($h);
+            $body
+        } else {
+            $crate::__sim_select!(@run $op [$($acc)*])
+        }
+    };
+    (@run $op:ident [{send $i:ident $h:ident ($m:expr) ($p:pat) ($body:expr)} $($acc:tt)*]) => {
+        if $op.index() == $i {
+            let $p = $op.send($h, $m);
+            $body
+        } else {
+            $crate::__sim_select!(@run $op [$($acc)*])
+        }
+    };
+    (@run $op:ident []) => {
+        unreachable!("select!: no operation matched the selected index")
+    };
 }
